@@ -5,6 +5,7 @@ package harness
 
 import (
 	"math/big"
+	"strings"
 
 	"cosmossdk.io/math"
 )
@@ -63,6 +64,13 @@ func (o *OracleC03) After(x *Exec, op *Op, res *Res) {
 			if !ok {
 				have = math.LegacyZeroDec()
 			}
+			if x.Orphaned(v.Idx, denom) {
+				// listed finding F-C05d: the validator was removed while delegations existed; its
+				// share record was deleted (and possibly re-created empty) under them
+				x.KnownFinding("F-C05d")
+				delete(sum, v.Addr+"|"+denom)
+				continue
+			}
 			if !have.Equal(tot) {
 				x.Fail("C03", "delegator-shares", "validator %d %s: Σ delegation shares %s != recorded total %s", v.Idx, denom, have, tot)
 			}
@@ -75,6 +83,10 @@ func (o *OracleC03) After(x *Exec, op *Op, res *Res) {
 		}
 	}
 	for _, k := range sortedKeys(sum) {
+		if i := strings.Index(k, "|"); i > 0 && x.Orphaned(x.W.ValIndex(k[:i]), k[i+1:]) {
+			x.KnownFinding("F-C05d")
+			continue
+		}
 		if !sum[k].IsZero() {
 			x.Fail("C03", "delegator-shares", "delegations %s sum to %s but the validator records no total", k, sum[k])
 		}
@@ -84,6 +96,11 @@ func (o *OracleC03) After(x *Exec, op *Op, res *Res) {
 		a := s.Assets[denom]
 		if x.PrecisionCollapsed(denom) {
 			x.KnownFinding("F-C04a")
+			continue
+		}
+		if x.RemovedWithStake[denom] {
+			// F-C05d: the removed validator's shares stay in the asset's share total
+			x.KnownFinding("F-C05d")
 			continue
 		}
 		if a.TotalValidatorShares.IsNegative() {
